@@ -32,11 +32,21 @@ CHECKS = {
     ),
     "C05": dict(
         category="translation_validation",
-        text=("The real `compare_asm_block_asm_format` is run on (block, semantic mutant) pairs and on (block, block); every pair it "
-              "accepts must be accepted by the proved Lean validator (`equiv_norm3_sound`) or survive execution in the Lean EVM on "
-              "boundary states; it must accept every analysable block against itself and never raise."),
+        text=("Term comparison, proved on a model: Models/Cmp.lean mirrors compare_variables / compare_target_stack of sfs_verify.py (source "
+              "words by name, integers, records by opcode and value or by operands, the reversed retry for records flagged commutative, "
+              "raising where Python raises); Cmp.cmp_sound (kernel-checked): where the comparison answers equal the two variables have "
+              "the same value under every interpretation of the specifications' symbols that is symmetric on the operations flagged "
+              "commutative. Tie: on the specifications of every (block, mutant) pair the real compare_target_stack and compare_variables "
+              "(on a grid of variable pairs, ~26 000 decisions per quick run) must answer exactly as the model; the theorem's executable "
+              "premises (pairOk) are evaluated. Whole checker, validated: the real compare_asm_block_asm_format is run on (block, semantic "
+              "mutant) pairs - opcode substitutions, constants, stack indices, every operand permutation of binary and ternary "
+              "operations in several contexts, dropped/duplicated/reordered stores, a store performed twice against that store plus a "
+              "different one - and on (block, block); every pair it accepts must be accepted by the proved Lean validator "
+              "(equiv_norm3_sound) or survive execution in the Lean EVM on boundary states; it must accept every analysable block against "
+              "itself and never raise. The comparison of stores and dependences (compare_storage_userdef_ins, compare_dependences) has no "
+              "model: validated only. Reading it for a model exposed a genuine defect (matching not one-to-one, fixed)."),
         design_ref="DESIGN.md section 8, C05",
-        technique="mutation pairs judged by the Lean-proved equivalence validator and the Lean EVM; reflexivity and exception behaviour of the real checker",
+        technique="Lean soundness theorem about a model of the checker's term comparison + exact correspondence of its decisions; mutation pairs judged by the Lean-proved equivalence validator and the Lean EVM; reflexivity and exception behaviour of the real checker",
     ),
     "C18": dict(
         category="proof",
@@ -64,7 +74,8 @@ CHECKS = {
         category="proof",
         text=("Lean specification of splitting and rebuilding (Models/Asm.lean) with theorems for every block and every choice of cut "
               "positions: joinShared_subBlocks (the sub-blocks joined at the shared instruction are the block), sharedOk_subBlocks, "
-              "rebuild_none (rebuilding with nothing replaced is the identity). Tie: the sub-block lists, specification keys and "
+              "rebuild_none (rebuilding with nothing replaced is the identity), rebuild_one (replacing sub-block k by R changes only that "
+              "segment, for every k and R). Tie: the sub-block lists, specification keys and "
               "source/target stack sizes the real front end reports under the three policies, and the real "
               "rebuild_optimized_asm_block with no and with each single replacement, are compared with the Lean functions on every "
               "generated block (exact correspondence; stack sizes against Lean symbolic execution)."),
@@ -179,7 +190,8 @@ CHECKS = {
         category="proof",
         text=("Lean specification of splitting and rebuilding (Models/Asm.lean) with theorems for every block and every choice of cut "
               "positions: joinShared_subBlocks (the sub-blocks joined at the shared instruction are the block), sharedOk_subBlocks, "
-              "rebuild_none (rebuilding with nothing replaced is the identity). Tie: the sub-block lists, specification keys and "
+              "rebuild_none (rebuilding with nothing replaced is the identity), rebuild_one (replacing sub-block k by R changes only that "
+              "segment, for every k and R). Tie: the sub-block lists, specification keys and "
               "source/target stack sizes the real front end reports under the three policies, and the real "
               "rebuild_optimized_asm_block with no and with each single replacement, are compared with the Lean functions on every "
               "generated block (exact correspondence; stack sizes against Lean symbolic execution)."),
